@@ -17,6 +17,16 @@ from ._serializable import CompositeType, Version
 _logger = logging.getLogger(__name__)
 
 
+def _parse_decimal(text: str) -> int:
+    """
+    Numbers in file names are plain decimal digits. int() alone is too lax here: it also accepts signs,
+    surrounding blanks, digit-separating underscores and non-ASCII digits, e.g. ``1_0.Foo.+1. 0.dsdl``.
+    """
+    if not (text.isascii() and text.isdigit()):
+        raise ValueError("Not a decimal integer: %r" % text)
+    return int(text)
+
+
 class FileNameFormatError(InvalidDefinitionError):
     """
     Raised when a DSDL definition file is named incorrectly.
@@ -195,7 +205,7 @@ class DSDLDefinition(ReadableDSDLFile):
         # Parsing the fixed port ID, if specified; None if not
         if str_fixed_port_id is not None:
             try:
-                self._fixed_port_id: int | None = int(str_fixed_port_id)
+                self._fixed_port_id: int | None = _parse_decimal(str_fixed_port_id)
             except ValueError:
                 raise FileNameFormatError(
                     "Not a valid fixed port-ID: %s. "
@@ -209,7 +219,7 @@ class DSDLDefinition(ReadableDSDLFile):
 
         # Parsing the version numbers
         try:
-            self._version = Version(major=int(str_major_version), minor=int(str_minor_version))
+            self._version = Version(major=_parse_decimal(str_major_version), minor=_parse_decimal(str_minor_version))
         except ValueError:
             raise FileNameFormatError("Could not parse the version numbers", path=self._file_path) from None
 
